@@ -10,6 +10,9 @@ from framework import REPO, ROOT
 
 TIE = ["Nsq.Tie.Proto", "Nsq.Tie.ProtoBase10", "Nsq.Tie.ProtoFunc", "Nsq.Tie.ProtoIdentify", "Nsq.Tie.NamesFn"]
 PROPS = ["Nsq.Props.C09", "Nsq.Props.C09Identify"]
+TIE_AUDIT = ["Nsq.Tie.ProtoAudit"]          # audit round 7 (C09 only; props/C10.py uses TIE / HARNESS above)
+PROPS_AUDIT = ["Nsq.Props.C09Audit", "Nsq.Props.C09Batch"]
+HARNESS_AUDIT = ["e3/audit09_test.go"]
 HARNESS = ["e3/infra_test.go", "e3/proto_test.go", "e3/http_test.go", "e3/httpfull_test.go", "e3/identify_test.go"]
 NAME_RE = re.compile(rb"^[.a-zA-Z0-9_-]+(#ephemeral)?$")
 
@@ -443,11 +446,29 @@ def compare(ctx, name, ops, impl, model, corr_broken, props_for_io=True, binp=No
                     ctx.violation(bad[0], bad[1] + " (conf %s)" % w[1],
                                   "%s\n%s\n# impl: %s\n# model: %s\n" % (ops_conf_line(ops, w[1]), o, a, b))
         if a != b:
+            ctx.corr["disagreements_seen"] = ctx.corr.get("disagreements_seen", 0) + 1
             if binp and ndiff < 3 and w[0] in ("io", "http", "iof") and not confirm_disagreement(
                     ctx, binp, testname, name, ops, i):
-                ctx.notes.append("transient model/impl disagreement (not reproduced in 2 re-executions of its "
-                                 "history, ignored): %s | impl %s | model %s" % (o[:300], a[:300], b[:300]))
-                ctx.log("transient disagreement, not reproducible: %s" % o[:120])
+                # audit B28: never dropped silently. The disagreement DID happen once: it is counted, its whole
+                # history (from `reset`) is kept as a replay file, it is listed in the evidence, the direct oracles
+                # above were evaluated on the implementation's answer like on any other, and more than two of
+                # them in one run are not "load": the correspondence is reported broken.
+                tr = ctx.corr.setdefault("unreproduced_disagreements", [])
+                j = i
+                while j > 0 and not ops[j].startswith("reset"):
+                    j -= 1
+                rp = ctx.write_replay("unreproduced_%s_%d.ops" % (name, len(tr)),
+                                      "# model/impl disagreement seen once, NOT reproduced in 2 re-executions of this history\n"
+                                      "# impl:  %s\n# model: %s\n%s\n" % (a[:2000], b[:2000], "\n".join(
+                                          x for x in ops[j:i + 1] if x.split()[0] in ("reset", "io", "http", "iof"))))
+                tr.append({"op": o[:600], "impl": a[:600], "model": b[:600], "replay": rp})
+                ctx.notes.append("model/impl disagreement seen once and not reproduced in 2 re-executions of its history "
+                                 "(counted in correspondence.unreproduced_disagreements, history kept in %s): %s | impl %s "
+                                 "| model %s" % (rp, o[:300], a[:300], b[:300]))
+                ctx.log("UNREPRODUCED-DISAGREEMENT (%d so far; history in %s): %s" % (len(tr), rp, o[:120]))
+                if len(tr) > 2:
+                    corr_broken.append("correspondence %s: %d disagreements that did not reproduce — the run is "
+                                       "not deterministic" % (name, len(tr)))
                 continue
             ndiff += 1
             if ndiff <= 5:
@@ -469,7 +490,7 @@ def ops_conf_line(ops, cid):
 def identify_leg(ctx, binp, corr_broken):
     """Round 6: IDENTIFY field by field (`idn` ops replayed through Nsq.Model.Identify.identifyFull) and the
     model-free oracle "the response document reflects exactly what was applied to the connection"."""
-    N = ctx.budget(2500, 15000)
+    N = ctx.budget(2500, 10000)
     rc, out = ctx.run_cmd([binp, "-test.run", "^TestVerifE3Identify$", "-test.count=1", "-test.timeout=3000s"],
                           timeout=3200, env={"VERIF_SEED": ctx.seed, "VERIF_N": N, "VERIF_OUT": ctx.work,
                                              "VERIF_REPO": REPO})
@@ -504,6 +525,204 @@ def identify_leg(ctx, binp, corr_broken):
     ctx.diff_lines(impl, model, "idn")
 
 
+
+# ----------------------------------------------------------------------------- audit round 7
+KEY_MPUB_PARTIAL = "mpub-partial-on-backend-fault"
+KEY_TICKER = "ticker-option-kills-daemon"
+
+
+def tree_checks_ticker_options():
+    """Which shape of nsqd.New the tree has (Gen fact; Nsq.Tie.ProtoAudit.newTickerOptionChecks_shape_known
+    proves it is one of the two)."""
+    try:
+        txt = open(os.path.join(ROOT, "lean", "Nsq", "Gen", "ProtoAudit.lean")).read()
+    except OSError:
+        return False
+    m = re.search(r"def newTickerOptionChecks : List String := \[(.*?)\]", txt, re.S)
+    if not m:
+        return False
+    if "opts.OutputBufferTimeout <= 0" in m.group(1) and "opts.ClientTimeout/2 <= 0" in m.group(1):
+        return True
+    return "attempted" if m.group(1).strip() else False      # some check of these options exists, not F31's
+
+
+TIE_CONNS = ["Nsq.Tie.ConnsStats"]   # what tcpServer.Handle stores in conns = what GetStats / Close assert (shared with C10)
+
+
+def halfopen_leg(ctx, corr_broken):
+    """TCP connections that have not completed the protocol magic (nothing sent / 1-3 bytes / a wrong magic sent
+    slowly / a bare magic) while /stats is requested in every format and filter and a normal producer/consumer pair
+    works; Exit with such connections open. Model-free oracles only (harness/e3/halfopen_test.go). Used by C09
+    ("other clients are unaffected") and C10 (no_500). Lesson of /repo b3a615a -> 919b356."""
+    if ctx.replay_in:
+        return
+    hbin = ctx.go_test_binary("nsqd", ["e3/halfopen_test.go"], "e3ho")
+    if not hbin:
+        ctx.broken_ties.append("harness e3/halfopen_test.go does not compile against the current tree")
+        corr_broken.append("half-open harness build")
+        return
+    rc, out = ctx.run_cmd([hbin, "-test.run", "^TestVerifE3HalfOpen$", "-test.count=1", "-test.timeout=900s"],
+                          timeout=1000, env={"VERIF_SEED": ctx.seed, "VERIF_N": ctx.budget(3, 12), "VERIF_OUT": ctx.work,
+                                             "VERIF_REPO": REPO})
+    fails, okl = harness_lines(ctx, out, "halfopen")
+    seen = set()
+    for l in fails:
+        m = re.match(r"ORACLE-FAIL key=(\S+)", l)
+        if m and m.group(1) in seen:
+            continue
+        seen.add(m.group(1) if m else l)
+        report_oracle_fail(ctx, l)
+    if "panic:" in out or "fatal error:" in out:
+        ctx.violation("halfopen-panic", "the nsqd process died while half-open TCP connections existed and /stats was requested",
+                      out[-4000:])
+    elif rc != 0 and not fails or (not okl and not fails):
+        ctx.log("half-open harness failed (rc=%s):\n%s" % (rc, out[-3000:]))
+        corr_broken.append("half-open harness exit %s" % rc)
+    m = re.search(r"ORACLE-OK halfopen requests=(\d+) rounds=(\d+)", out)
+    if m:
+        ctx.evaluations += int(m.group(1))
+        ctx.corr["halfopen"] = m.group(0)
+        for k in range(int(m.group(2))):
+            ctx.count_case("halfopen round %d seed %s" % (k, ctx.seed), nontrivial=True)
+
+
+def ticker_leg(ctx, binp, corr_broken):
+    """B8: the two option values messagePump hands to time.NewTicker, each in a SUBPROCESS (the daemon may
+    die). Model: Nsq.Model.ProtoEnv.firstConnection checked o (checked = the tree has F31's checks)."""
+    shape = tree_checks_ticker_options()
+    checked = shape is True
+    ctx.corr["tree_checks_ticker_options"] = shape
+    cases = [("defaults", {}, "alive"),
+             ("output-buffer-timeout=0", {"VERIF_OBT": "0"}, "bad"),
+             ("output-buffer-timeout=-1s", {"VERIF_OBT": "-1000000000"}, "bad"),
+             ("client-timeout=1ns", {"VERIF_CT": "1"}, "bad"),
+             ("client-timeout=2ns", {"VERIF_CT": "2"}, "alive")]
+    res = {}
+    for label, env, kind in cases:
+        e = {"VERIF_TICKER_CHILD": "1", "VERIF_REPO": REPO}
+        e.update(env)
+        rc, out = ctx.run_cmd([binp, "-test.run", "^TestVerifE3TickerChild$", "-test.count=1", "-test.timeout=60s"],
+                              timeout=90, env=e)
+        line = next((l for l in out.splitlines() if l.startswith("TICKER ")), "")
+        died = rc != 0 and "non-positive interval" in out
+        got = "died" if died else ("refused" if line.startswith("TICKER refused") else
+                                   ("alive" if line.startswith("TICKER alive") else "other:" + (line or out[-200:])))
+        res[label] = got
+        ctx.count_case("ticker " + label, nontrivial=True)
+        want = "alive" if kind == "alive" else ("refused" if checked else "died")   # the model's answer
+        if got == "died":
+            what = ("nsqd started with --%s and the first TCP connection killed the whole daemon (panic: non-positive "
+                    "interval for NewTicker in protocolV2.messagePump, a goroutine nothing recovers)" % label)
+            replay = "# subprocess: TestVerifE3TickerChild with %s\n# output tail:\n# %s\n" % (
+                env, "\n# ".join(out[-1200:].splitlines()))
+            if shape:
+                ctx.violation(KEY_TICKER + "-regressed", "nsqd.New checks these options (%s) but " % (
+                    "F31" if checked else "not the way F31 does") + what, replay)
+            else:
+                ctx.violation(KEY_TICKER, what, replay)
+        if got != want:
+            ctx.log("ticker options `%s`: the daemon %s, the model says %s" % (label, got, want))
+            corr_broken.append("ticker options %s: %s (model: %s)" % (label, got, want))
+    ctx.corr["ticker_options"] = res
+
+
+def audit_leg(ctx, binp, corr_broken):
+    """Audit round 7: driver op `iox` (Nsq.Model.ProtoEnv) against harness/e3/audit09_test.go — consumer limit
+    reached by connections held open, a write-failing topic backend, a real auth server, compression
+    negotiation — with a concurrent bystander and the committed .xops replays (known finding first)."""
+    corpus = os.path.join(ctx.work, "corpus_x")
+    os.makedirs(corpus, exist_ok=True)
+    n = 0
+    for sub in ("known", "fixed", ""):
+        d = os.path.join(ROOT, "corpus", "C09", sub)
+        if os.path.isdir(d):
+            for fn in sorted(os.listdir(d)):
+                if fn.endswith(".xops"):
+                    n += 1
+                    with open(os.path.join(corpus, "%02d_%s_%s" % (n, sub or "min", fn)), "w") as f:
+                        f.write(open(os.path.join(d, fn)).read())
+    N = ctx.budget(700, 5000)
+    rc, out = ctx.run_cmd([binp, "-test.run", "^TestVerifE3Audit09$", "-test.count=1", "-test.timeout=3000s"],
+                          timeout=3200, env={"VERIF_SEED": ctx.seed, "VERIF_N": N, "VERIF_OUT": ctx.work,
+                                             "VERIF_REPO": REPO, "VERIF_CORPUS": corpus})
+    fails, okl = harness_lines(ctx, out, "audit")
+    for l in fails:
+        report_oracle_fail(ctx, l)
+    if rc != 0 or (not okl and not fails):
+        ctx.log("audit harness failed (rc=%s):\n%s" % (rc, out[-3000:]))
+        corr_broken.append("audit harness exit %s" % rc)
+        if "panic:" in out or "fatal error:" in out:
+            last = os.path.join(ctx.work, "last.ops")
+            pl = [l for l in out.splitlines() if l.startswith("panic:") or l.startswith("fatal error:")]
+            ctx.violation("panic", "the nsqd process died while serving this connection: %s" % (pl[0][:200] if pl else ""),
+                          "# last connection served:\n%s# output tail:\n# %s\n" % (
+                              open(last).read() if os.path.exists(last) else "", "\n# ".join(out[-1500:].splitlines())))
+    opsf = os.path.join(ctx.work, "audit.ops")
+    if not os.path.exists(opsf):
+        return
+    ops = open(opsf).read().splitlines()
+    impl = open(os.path.join(ctx.work, "audit.impl")).read().splitlines()
+    model = run_driver(ctx, binp, opsf, "audit")
+    confs = parse_confs(ops)
+    maxcc = {x.split()[1]: int(x.split()[2]) for x in ops if x.startswith("confx ")}
+    auth_on = {x.split()[1]: x.split()[3] == "1" for x in ops if x.startswith("confx ")}
+    granted = set()
+    ndiff = 0
+    for i, o in enumerate(ops):
+        a = impl[i] if i < len(impl) else "<missing>"
+        b = model[i] if i < len(model) else "<missing>"
+        w = o.split()
+        if w[0] == "iox" and w[5] == "b" and maxcc.get(w[1], 0) > 0:
+            # direct oracle (no model): no channel ever has more consumers than --max-channel-consumers
+            fa = dict(x.split("=", 1) for x in a.split() if "=" in x)
+            for (tn, _p, _c, _ms, chans) in parse_broker(fa.get("B", "-")):
+                for (cn, _cp, ncl, _cms) in chans:
+                    if ncl > maxcc[w[1]]:
+                        ctx.violation("consumer-limit-exceeded", "channel %r/%r has %d consumers (max-channel-consumers %d)" % (
+                            tn, cn, ncl, maxcc[w[1]]), "%s\n# impl: %s\n# model: %s\n" % (o, a, b))
+        if w[0] == "authd" and len(w) == 4 and w[3] != "-":
+            granted.update(w[3].split(","))
+        if w[0] == "iox":
+            # direct oracles (no model): (1) the four E_*_FAILED codes of publish / subscribe are documented fatal:
+            # such a frame is the last one and the connection is closed; (2) on a node with an auth server no
+            # topic outside every authorization the server ever granted holds a message or a consumer
+            fa = dict(x.split("=", 1) for x in a.split() if "=" in x)
+            rs = [] if fa.get("R", "-") == "-" else fa["R"].split(",")
+            for k, r in enumerate(rs):
+                if r in ("E_PUB_FAILED", "E_MPUB_FAILED", "E_DPUB_FAILED", "E_SUB_FAILED") and (
+                        k != len(rs) - 1 or fa.get("E") != "closed"):
+                    ctx.violation("fatal-code-not-closing", "%s was answered and the connection went on (%s)" % (r, a[:120]),
+                                  "%s\n# impl: %s\n# model: %s\n" % (o, a, b))
+            if auth_on.get(w[1]) and w[5] == "b":
+                for (tn, _p, cnt, ms, chans) in parse_broker(fa.get("B", "-")):
+                    if tn is not None and tn.hex() not in granted and (cnt > 0 or ms or any(c[2] > 0 for c in chans)):
+                        ctx.violation("unauthorized-effect", "topic %r holds messages / consumers although the auth server "
+                                      "never granted it (granted: %s)" % (tn, sorted(bytes.fromhex(g) for g in granted)),
+                                      "%s\n# impl: %s\n# model: %s\n" % (o, a, b))
+        if w[0] in ("iox", "io"):
+            ctx.count_case(o, nontrivial=("R=-" not in a))
+            if i % 97 == 0 and len(o) < 300:
+                ctx.add_sample({"op": o, "impl": a[:300]})
+            conf = confs.get(w[1])
+            if conf and (w[0] == "io" or w[5] == "b"):
+                bad = limits_fail(a, conf)
+                if bad:
+                    ctx.violation(bad[0], bad[1] + " (conf %s)" % w[1],
+                                  "%s\n%s\n# impl: %s\n# model: %s\n" % (ops_conf_line(ops, w[1]), o, a, b))
+        if a != b:
+            ndiff += 1
+            if ndiff <= 5:
+                ctx.log("audit leg: model/impl disagree on `%s`:\n   impl  %s\n   model %s" % (o[:300], a[:400], b[:400]))
+                corr_broken.append("correspondence audit: %s" % o[:160])
+                if ndiff == 1:
+                    j = i
+                    while j > 0 and not ops[j].startswith("reset"):
+                        j -= 1
+                    ctx.corr["first_disagreement_audit"] = {"op": o[:2000], "impl": a[:2000], "model": b[:2000],
+                                                            "history": [x[:400] for x in ops[j:i + 1]]}
+    ctx.diff_lines(impl, model, "audit")
+
+
 # ----------------------------------------------------------------------------- the check
 def run(ctx):
     ctx.trusted += [
@@ -517,11 +736,12 @@ def run(ctx):
         "bufio.Reader.ReadSlice / io.ReadFull semantics as modelled (16 KiB buffer: a line of more than 16384 "
         "bytes including its newline is ErrBufferFull); regexp (names: byte-wise class automaton)",
         "Go memory model: one connection's IOLoop is sequential; connections interact only through the broker",
-        "TLS policy and AUTH are gate inputs of the model (C11); TLS/snappy/deflate upgrades end the modelled part",
+        "TLS policy and AUTH are gate inputs of the base model (C11); in Nsq.Model.ProtoEnv (audit round 7) the gate is connection state written by AUTH and the auth server a parameter, tied against a real auth server (node A); TTL expiry stays with C11; TLS/snappy/deflate upgrades end the modelled part",
     ]
     ctx.assumptions += [
         "writes to the client succeed (write errors are I/O faults: E_*_FAILED / send errors are outside the model)",
-        "no topic is exiting while a publish runs (E_PUB_FAILED/E_MPUB_FAILED/E_DPUB_FAILED are race-only)",
+        "base model (Props.C09): no backend write fails and no topic is exiting while a publish runs; a failing write IS an input of Nsq.Model.ProtoEnv (Props.C09Audit): mpub_all_or_nothing_partial needs `no failing write` (open finding mpub-partial-on-backend-fault), answers_independent_of_broker_partial needs --max-channel-consumers = 0",
+        "without fixes/F31: output-buffer-timeout > 0 and client-timeout >= 2ns (C09Audit.accepted_iff) — otherwise the first connection kills the daemon (open finding ticker-option-kills-daemon)",
         "dpub_exact: max-req-timeout below 2^63-1 ns; req_clamp: 0 <= max-req-timeout <= 2^63-1 ns",
         "F10 repaired (fixes/F10_mpub_body_limit.patch): mpub_total_le_body_limit is a full theorem of the patched tree",
     ]
@@ -539,15 +759,17 @@ def run(ctx):
     ctx.gen("e1_codec")   # the translated ByteToBase10 (kind func) for Nsq.Tie.ProtoBase10
     ctx.gen("e1_names")   # the translated isValidName / IsValidTopicName / IsValidChannelName (kind strfunc) for Nsq.Tie.NamesFn
     ctx.gen("e3_protofunc")   # the four clientV2 setters translated (kind pfunc) for Nsq.Tie.ProtoFunc
-    ok, log = ctx.lean_build(TIE + PROPS)
+    ctx.gen("e3_audit09")     # PutMessages / AddClient / CheckAuth / AUTH tail / NewTicker / New option checks
+    ctx.gen("e3_conns")       # tcpServer.Handle's conns.Store vs the type assertions of GetStats / Close
+    ok, log = ctx.lean_build(TIE + TIE_AUDIT + TIE_CONNS + PROPS + PROPS_AUDIT)
     if not ok:
-        ctx.lean_obligation_failed("lake build " + " ".join(TIE + PROPS), log[-1500:])
-    ctx.lean_audit(PROPS, TIE)
+        ctx.lean_obligation_failed("lake build " + " ".join(TIE + TIE_AUDIT + TIE_CONNS + PROPS + PROPS_AUDIT), log[-1500:])
+    ctx.lean_audit(PROPS + PROPS_AUDIT, TIE + TIE_AUDIT + TIE_CONNS)
     if ctx.thorough():
-        ctx.leanchecker(PROPS)
+        ctx.leanchecker(PROPS + PROPS_AUDIT)
     corr_broken = []
     ctx.build_driver("e3")
-    binp = ctx.go_test_binary("nsqd", HARNESS, "e3proto")
+    binp = ctx.go_test_binary("nsqd", HARNESS + HARNESS_AUDIT, "e3proto")
     if not binp:
         ctx.broken_ties.append("harness harness/e3 does not compile against the current tree")
         corr_broken.append("harness build")
@@ -568,7 +790,7 @@ def run(ctx):
                 os.remove(os.path.join(corpus, fn))
             with open(os.path.join(corpus, "00_replay.ops"), "w") as f:
                 f.write(open(ctx.replay_in).read())
-        N = 0 if ctx.replay_in else ctx.budget(8000, 100000)
+        N = 0 if ctx.replay_in else ctx.budget(8000, 60000)
         rc, out = ctx.run_cmd([binp, "-test.run", "^TestVerifE3Proto$", "-test.count=1", "-test.timeout=3000s"],
                               timeout=3200, env={"VERIF_SEED": ctx.seed, "VERIF_N": N, "VERIF_OUT": ctx.work,
                                                  "VERIF_REPO": REPO, "VERIF_CORPUS": corpus})
@@ -600,6 +822,9 @@ def run(ctx):
                     print("op    %s\n impl  %s\n model %s" % (o[:400], a[:600], b[:600]))
     if binp and not ctx.replay_in:
         identify_leg(ctx, binp, corr_broken)
+        audit_leg(ctx, binp, corr_broken)
+        ticker_leg(ctx, binp, corr_broken)
+    halfopen_leg(ctx, corr_broken)
     if (ctx.broken_ties or corr_broken) and not ctx.violations:
         ctx.broken_without_input(ctx.broken_ties + corr_broken,
                                  "search: %d generated operations, the probe/limit/number oracles and the "
